@@ -86,12 +86,12 @@ def gen_config(rng, mech, attrs, shape):
         wts = [float(gen.pick(rng, [1.0, 1.0, 0.5, 2.0, 3.0])) for _ in W]
         n1 = len(set(a for cl in W for a in cl))
         cfg.update(workload=list(zip(W, wts)), rounds=gen.pick(rng, [None, None, int(2 * n1 + 2), int(2 * len(attrs) + 3), int(30 * len(attrs))]),
-                   max_model_size=float(gen.pick(rng, [80, 80, 0.001])))
+                   max_model_size=float(gen.pick(rng, [80, 80, 0.001])), pass_prng=bool(rng.rand() < 0.3))
     elif mech == 'mwem':
         noise = gen.pick(rng, ['gaussian', 'gaussian', 'laplace'])
         cfg.update(noise=noise, bounded=bool(rng.rand() < 0.5), rounds=gen.pick(rng, [None, 2, 8]),
                    workload=(None if rng.rand() < 0.6 else [pairs[i] for i in rng.permutation(len(pairs))[:max(1, len(pairs) // 2)]]),
-                   alpha=float(gen.pick(rng, [0.9, 0.9, 0.5])), maxsize_mb=float(gen.pick(rng, [25, 25, 0.0005])))
+                   alpha=float(gen.pick(rng, [0.9, 0.9, 0.5, 0.99])), maxsize_mb=float(gen.pick(rng, [25, 25, 0.0005])))
         cfg['accounting'] = 'pure' if noise == 'laplace' else 'zcdp'
     elif mech == 'adagrid':
         cfg.update(threshold=float(gen.pick(rng, [5.0, 1.0, 0.0])), targets=([] if rng.rand() < 0.6 else [attrs[int(rng.randint(len(attrs)))]]),
@@ -177,6 +177,8 @@ class Harness:
             kw = dict(max_model_size=cfg['max_model_size'])
             if cfg['rounds'] is not None:
                 kw['rounds'] = cfg['rounds']
+            if cfg.get('pass_prng'):
+                kw['prng'] = np.random      # a caller-supplied generator (the patched numpy.random module itself)
             a = self.mods['aim'].AIM(cfg['eps'], cfg['delta'], **kw)
             return a.run(data, list(cfg['workload']))
         if mech == 'mwem':
